@@ -95,6 +95,7 @@ func c12SameMap(c *harness.Check, cs sameMapCase) string {
 }
 
 func init() {
+	registerRenderReplayer("C12/namesakes-in-blocks")
 	harness.RegisterReplayer("C12/same-map-other-values", func(raw json.RawMessage) string {
 		cs, err := unJSON[sameMapCase](raw)
 		if err != nil {
@@ -207,4 +208,51 @@ func TestC12_ReadsAfterArrayFunctions(t *testing.T) {
 		}
 	}
 	c.ExhaustivePart("lengths 2..6 x 2 element kinds x 3 places x every cut x 5 ways to extend the part")
+}
+
+// TestC12_NamesakesInBlocks: a name a block binds for itself - the variable of
+// an @each or @for, an assignment in a branch - is the block's own: the data
+// entry of the same name reads as it was passed, during the block's siblings
+// and after the block.
+func TestC12_NamesakesInBlocks(t *testing.T) {
+	c := harness.New(t, "C12", "namesakes-in-blocks",
+		"data entries n (integer), s (string), user (a struct behind a pointer), row (a slice) next to lists of values of the same types; templates in which an @each variable, a @for variable, an assignment inside an @if branch or inside a loop body has the name of the data entry (same type, so the binding is legal), one and two blocks deep, followed by a read of the entry: it prints the data. Exhaustive. Non-trivial: all. Distinct by construction.")
+	defer c.Finish()
+	person := func(name string, age int64) *spec.Value {
+		return spec.Ptr(spec.Struct([]string{"Name", "Age"}, []*spec.Value{spec.String(name), spec.IntOf(spec.TInt, age)}))
+	}
+	ints := func(xs ...int64) *spec.Value {
+		it := make([]*spec.Value, len(xs))
+		for i, x := range xs {
+			it[i] = spec.IntOf(spec.TInt, x)
+		}
+		return spec.Slice(spec.T(spec.TInt), it...)
+	}
+	data := (&spec.Data{}).Add("n", spec.IntOf(spec.TInt, 7)).Add("nums", ints(1, 2, 3)).Add("s", spec.String("own")).Add("names", spec.Slice(spec.T(spec.TString), spec.String("a"), spec.String("b"))).
+		Add("user", person("Anna", 30)).Add("users", spec.Slice(spec.T(spec.TAny), spec.Any(person("Bob", 41)), spec.Any(person("Cid", 52)))).
+		Add("row", ints(9, 8)).Add("rows", spec.Slice(spec.T(spec.TAny), spec.Any(ints(1)), spec.Any(ints(2, 3))))
+	cases := []struct{ src, want string }{
+		{"@each(n in nums){{ n }}@end|{{ n }}", "123|7"},
+		{"{{ n }}|@each(n in nums)@each(s in names){{ n }}{{ s }}@end@end|{{ n }}{{ s }}", "7|1a1b2a2b3a3b|7own"},
+		{"@for(n = 0; n < 2; n++){{ n }}@end|{{ n }}", "01|7"},
+		{"@if(true){{ n = 1 }}{{ n }}@end|{{ n }}", "1|7"},
+		{"@if(true)@if(true){{ s = 'in' }}{{ s }}@end{{ s }}@end|{{ s }}", "inown|own"},
+		{"{{ user.name }}|@each(user in users){{ user.name }},@end|{{ user.name }} {{ user.age }}", "Anna|Bob,Cid,|Anna 30"},
+		{"@each(row in rows){{ row.len() }}@end|{{ row.len() }}{{ row[0] }}", "12|29"},
+		{"@each(x in nums){{ n = x }}@end{{ n }}|@each(x in nums)@if(x == 2){{ n = 0 }}@end@end{{ n }}", "7|7"},
+		{"@each(x in nums)@for(n = x; n < 3; n++){{ n }}@end;@end|{{ n }}", "12;2;;|7"},
+		{"@if(false)a@else{{ user = users[1] }}{{ user.name }}@end|{{ user.name }}", "Cid|Anna"},
+	}
+	for i, cse := range cases {
+		if !harness.Mine(i) {
+			continue
+		}
+		cs := renderCase{Src: cse.src, Data: data, Want: want{St: "ok", Kind: "text", S: cse.want}}
+		c.CaseEnum(true)
+		c.Sample(cs.sample())
+		if r, f := runRenderCase(c, cs); f != "" {
+			c.Fail(t, failKind(r), cs, cs.Want, r, f)
+		}
+	}
+	c.ExhaustivePart(fmt.Sprintf("%d templates", len(cases)))
 }
